@@ -1,5 +1,5 @@
 (** C01 - generated module is complete Rust that compiles against wgpu 24 (partial: see DESIGN.md). *)
-From W2W Require Import Wf C15Spec C01Spec C01Proof.
+From W2W Require Import Wf C15Spec C06Spec C07Premise C01Spec C01Proof C01More.
 
 (** PARTIAL. The full statement would be [names_ok m o -> gen m .. = Ok out -> rust_wf out = true]; what is
     proved so far is the literal-vs-declared-type clause of [rust_wf] (the other clauses are evaluated on every
@@ -8,3 +8,22 @@ Theorem C01_holds_partial : forall m src inc o out_,
   wf_consts m = true -> gen m src inc o = Ok out_ -> forallb const_wt (o_consts out_) = true.
 Proof. exact consts_well_typed. Qed.
 Print Assumptions C01_holds_partial.
+
+
+(** PARTIAL, second part: every type name the parametric parts of the output USE resolves to an item the output
+    DEFINES - nested struct references, the struct behind every attribute table, the attribute table behind every
+    buffer of a vertex entry helper - struct names are pairwise distinct and constants are well typed. These are
+    five of the fifteen conjuncts of [rust_wf]; the name-space conjuncts (keywords, clashes with template items,
+    derive bounds) are premises about the WGSL identifiers / types and are evaluated on every real output. *)
+Theorem C01_holds_structure : forall m src inc o out_,
+  wf m = true -> wf_consts m = true -> wf_io_structs m = true -> wf_vertex_inputs m = true ->
+  gen m src inc o = Ok out_ ->
+  forallb const_wt (o_consts out_) = true
+  /\ str_nodup (map s_name (o_structs out_)) = true
+  /\ forallb (fun s => forallb (fun f => forallb (fun n => existsb (String.eqb n) (map s_name (o_structs out_)))
+                                                 (C01Spec.named_in (fd_ty f))) (s_fields s)) (o_structs out_) = true
+  /\ forallb (fun v => existsb (String.eqb (vs_name v)) (map s_name (o_structs out_))) (o_vstructs out_) = true
+  /\ forallb (fun v => forallb (fun b => existsb (fun vs => String.eqb (vs_name vs) (fst b)) (o_vstructs out_)) (ve_buffers v))
+             (o_ventries out_) = true.
+Proof. exact C01_structure. Qed.
+Print Assumptions C01_holds_structure.
